@@ -142,7 +142,7 @@ def gen(rng, ctx):
     ni = rng.randint(1, 4)
     cd = G.rand_circuit(rng, ni, rng.randint(1, 7), max_fanin=4, p_const=0.2, p_input_output=0.05)
     if cls in ("flops", "bb"):
-        cd = G.add_blackboxes(rng, cd, rng.randint(1, 2), bbdefs=[{"name": "ff", "inputs": ["clk", "d"], "outputs": ["q"]}] if cls == "flops" else None, p_unconnected=0.0 if cls == "flops" else 0.2)
+        cd = G.add_blackboxes(rng, cd, rng.randint(1, 3), bbdefs=[{"name": "ff", "inputs": ["clk", "d"], "outputs": ["q"]}, {"name": "ff", "inputs": ["clk", "d"], "outputs": ["q"]}, {"name": "ffn", "inputs": ["clk", "d", "rn"], "outputs": ["q", "qn"]}] if cls == "flops" else None, p_unconnected=0.0 if cls == "flops" else 0.2)
     if cls == "cyclic":
         cd = G.add_cycles(rng, cd, rng.randint(1, 2))
     if rng.random() < 0.12:
